@@ -628,8 +628,13 @@ def verify_function(repo, registry, models_factory, c, base_axioms, options=None
             return run_path(st)
         except (PathEnd, Infeasible, Unsupported, PyRaise, ReturnEx, BreakEx, ContinueEx):
             raise
-        except z3.Z3Exception:
-            raise
+        except z3.Z3Exception as e:
+            # z3py refusing an operation inside a contract clause (e.g. a symbolic term where the clause expected a python
+            # value because a call is spelled differently now): the clause cannot be evaluated on this code
+            import traceback
+            where = traceback.extract_tb(e.__traceback__)[-2:]
+            raise Unsupported(f'a contract clause could not be evaluated on this code (z3: {e}) at '
+                              + ' <- '.join(f'{w.filename.split("/")[-1]}:{w.lineno}' for w in reversed(where)))
         except (KeyError, AttributeError, IndexError, TypeError, AssertionError) as e:
             # the contract's view of the data no longer fits the code (a representation changed): the contract cannot be
             # applied, which is undecided, not a violation and not a checker crash
